@@ -203,3 +203,274 @@ Lemma cut_evec L bx by_ i : i < nE (cut_boundaries L bx by_) ->
 Proof.
   unfold cut_boundaries. rewrite internal_edge_ind_spec, nE_select. apply evec_select.
 Qed.
+
+(* ================================================================== remove_vertices *)
+Lemma filter_length_compl {A} (p : A -> bool) (l : list A) :
+  length (filter p l) + length (filter (fun x => negb (p x)) l) = length l.
+Proof.
+  induction l as [|x l IH]; simpl; [reflexivity|].
+  destruct (p x); simpl; lia.
+Qed.
+
+Lemma memb_In v l : memb v l = true <-> In v l.
+Proof.
+  unfold memb. rewrite existsb_exists. split.
+  - intros (x & Hx & E). apply Nat.eqb_eq in E. subst. exact Hx.
+  - intro H. exists v. split; [exact H | apply Nat.eqb_refl].
+Qed.
+
+(* ---- new_index: closed form ---- *)
+Section NewIndex.
+  Variable rem : nat -> bool.
+
+  Definition ni_gen (a : nat) (acc : Z) (len : nat) : list Z :=
+    let sfr := map rem (seq a len) in
+    map (fun vs : nat * (bool * Z) =>
+           let '(v, (removed, s)) := vs in if removed then (-1)%Z else (Z.of_nat v - s)%Z)
+        (combine (seq a len) (combine sfr (cumsum_b acc sfr))).
+
+  Lemma ni_gen_nth len : forall a acc i, i < len ->
+    nth i (ni_gen a acc len) (-1)%Z =
+    if rem (a + i) then (-1)%Z
+    else (Z.of_nat (a + i) - acc - Z.of_nat (length (filter rem (seq a (S i)))))%Z.
+  Proof.
+    induction len as [|len IH]; intros a acc i Hi; [lia|].
+    unfold ni_gen. cbn [seq map cumsum_b combine].
+    destruct i as [|i].
+    - cbn [nth]. rewrite Nat.add_0_r. cbn [seq filter].
+      destruct (rem a) eqn:Ha; [reflexivity|]. cbn [b2z length]. lia.
+    - cbn [nth]. fold (ni_gen (S a) (acc + b2z (rem a))%Z len).
+      rewrite IH by lia.
+      replace (S a + i) with (a + S i) by lia.
+      destruct (rem (a + S i)); [reflexivity|].
+      change (seq a (S (S i))) with (a :: seq (S a) (S i)). cbn [filter].
+      destruct (rem a); cbn [b2z length]; lia.
+  Qed.
+
+  Lemma ni_gen_length a acc len : length (ni_gen a acc len) = len.
+  Proof.
+    unfold ni_gen. rewrite map_length, combine_length, seq_length, combine_length, map_length, seq_length.
+    assert (H : forall l acc0, length (cumsum_b acc0 l) = length l).
+    { induction l as [|b l IHl]; intro acc0; simpl; [reflexivity | rewrite IHl; reflexivity]. }
+    rewrite H, map_length, seq_length. lia.
+  Qed.
+
+  Definition rankf (v : nat) : nat := length (filter (fun u => negb (rem u)) (seq 0 v)).
+
+  Lemma ni_closed n v : v < n ->
+    nth v (ni_gen 0 0 n) (-1)%Z = if rem v then (-1)%Z else Z.of_nat (rankf v).
+  Proof.
+    intro Hv. rewrite ni_gen_nth by exact Hv. cbn [Nat.add].
+    destruct (rem v) eqn:Hr; [reflexivity|].
+    rewrite seq_S, filter_app. cbn [Nat.add filter]. rewrite Hr. rewrite app_nil_r.
+    unfold rankf. pose proof (filter_length_compl rem (seq 0 v)) as H. rewrite seq_length in H. lia.
+  Qed.
+End NewIndex.
+
+Lemma new_index_eq n idx : new_index n idx = ni_gen (fun v => memb v idx) 0 0 n.
+Proof. reflexivity. Qed.
+
+(* ---- np.delete and boolean-mask selection as index selections ---- *)
+Lemma np_delete_aux {A} (d : A) (q : nat -> bool) (l : list A) : forall a,
+  map snd (filter (fun ix : nat * A => q (fst ix)) (combine (seq a (length l)) l))
+  = map (fun i => nth (i - a) l d) (filter q (seq a (length l))).
+Proof.
+  induction l as [|x l IH]; intro a; [reflexivity|].
+  cbn [length seq combine filter fst].
+  assert (Hshift : map (fun i => nth (i - a) (x :: l) d) (filter q (seq (S a) (length l)))
+                   = map (fun i => nth (i - S a) l d) (filter q (seq (S a) (length l)))).
+  { apply map_ext_in. intros i Hi. apply filter_seq_lt in Hi.
+    replace (i - a) with (S (i - S a)) by lia. reflexivity. }
+  destruct (q a).
+  - cbn [map snd]. rewrite IH, Nat.sub_diag, Hshift. reflexivity.
+  - rewrite IH, Hshift. reflexivity.
+Qed.
+
+Lemma np_delete_spec {A} (d : A) (l : list A) (rows : list nat) :
+  np_delete l rows = map (fun i => nth i l d) (filter (fun i => negb (memb i rows)) (seq 0 (length l))).
+Proof.
+  unfold np_delete. rewrite (np_delete_aux d (fun i => negb (memb i rows)) l 0).
+  apply map_ext. intro i. rewrite Nat.sub_0_r. reflexivity.
+Qed.
+
+Lemma mask_select_aux {A} (d : A) (rem : nat -> bool) (l : list A) : forall a,
+  mask_select l (map rem (seq a (length l)))
+  = map (fun i => nth (i - a) l d) (filter (fun i => negb (rem i)) (seq a (length l))).
+Proof.
+  unfold mask_select.
+  induction l as [|x l IH]; intro a; [reflexivity|].
+  cbn [length seq map combine filter fst].
+  assert (Hshift : map (fun i => nth (i - a) (x :: l) d) (filter (fun i => negb (rem i)) (seq (S a) (length l)))
+                   = map (fun i => nth (i - S a) l d) (filter (fun i => negb (rem i)) (seq (S a) (length l)))).
+  { apply map_ext_in. intros i Hi. apply filter_seq_lt in Hi.
+    replace (i - a) with (S (i - S a)) by lia. reflexivity. }
+  destruct (rem a); cbn [negb].
+  - rewrite IH, Hshift. reflexivity.
+  - cbn [map snd]. rewrite IH, Nat.sub_diag, Hshift. reflexivity.
+Qed.
+
+Lemma mask_select_spec {A} (d : A) (rem : nat -> bool) (l : list A) :
+  mask_select l (map rem (seq 0 (length l)))
+  = map (fun i => nth i l d) (filter (fun i => negb (rem i)) (seq 0 (length l))).
+Proof.
+  rewrite (mask_select_aux d rem l 0). apply map_ext. intro i. rewrite Nat.sub_0_r. reflexivity.
+Qed.
+
+(* ---- rank in a filtered range = number of kept predecessors ---- *)
+Lemma rank_filter_seq (keep : nat -> bool) n : forall a v, a <= v < a + n -> keep v = true ->
+  rank (filter keep (seq a n)) v = length (filter keep (seq a (v - a))).
+Proof.
+  induction n as [|n IH]; intros a v Hv Hk; [lia|].
+  cbn [seq filter].
+  destruct (Nat.eq_dec a v) as [->|Hne].
+  - rewrite Hk. cbn [rank]. rewrite Nat.eqb_refl, Nat.sub_diag. reflexivity.
+  - replace (v - a) with (S (v - S a)) by lia. cbn [seq filter].
+    destruct (keep a) eqn:Ha.
+    + cbn [rank length]. destruct (Nat.eqb_spec a v) as [E|_]; [contradiction|].
+      rewrite IH by (try lia; exact Hk). reflexivity.
+    + apply IH; [lia | exact Hk].
+Qed.
+
+(* wf facts *)
+Lemma wf_parts L : wf_lattice L = true ->
+  (0 < scale L)%Z /\ length (crossing L) = nE L /\ Forall (fun e => fst e < nV L /\ snd e < nV L) (edges L).
+Proof.
+  unfold wf_lattice. rewrite !andb_true_iff. intros [[Hs Hc] He].
+  split; [lia|]. split; [apply Nat.eqb_eq; exact Hc|].
+  rewrite forallb_forall in He. apply Forall_forall. intros e Hin. specialize (He e Hin).
+  unfold wf_edge in He. lia.
+Qed.
+
+Lemma wf_edge_at L e : wf_lattice L = true -> e < nE L ->
+  fst (edge_at L e) < nV L /\ snd (edge_at L e) < nV L.
+Proof.
+  intros Hwf He. destruct (wf_parts L Hwf) as (_ & _ & HF).
+  rewrite Forall_forall in HF. apply HF. unfold edge_at. apply nth_In. exact He.
+Qed.
+
+Definition keepf (idx : list nat) (v : nat) : bool := negb (memb v idx).
+
+Lemma kept_vertices_eq L idx : kept_vertices L idx = filter (keepf idx) (seq 0 (nV L)).
+Proof. reflexivity. Qed.
+Lemma kept_edges_eq L idx : kept_edges L idx = filter (both_ends L (keepf idx)) (seq 0 (nE L)).
+Proof. reflexivity. Qed.
+
+Lemma new_adjacency_nth L idx e : e < nE L ->
+  nth e (new_adjacency L idx) ((-1)%Z, (-1)%Z)
+  = (nth (fst (edge_at L e)) (new_index (nV L) idx) (-1)%Z, nth (snd (edge_at L e)) (new_index (nV L) idx) (-1)%Z).
+Proof.
+  intro He. unfold new_adjacency.
+  set (f := fun e0 : nat * nat => (nth (fst e0) (new_index (nV L) idx) (-1)%Z, nth (snd e0) (new_index (nV L) idx) (-1)%Z)).
+  rewrite (nth_indep _ _ (f (0, 0))) by (rewrite map_length; exact He).
+  rewrite map_nth. reflexivity.
+Qed.
+
+Lemma new_adjacency_length L idx : length (new_adjacency L idx) = nE L.
+Proof. unfold new_adjacency. apply map_length. Qed.
+
+Lemma ni_value L idx v : v < nV L ->
+  nth v (new_index (nV L) idx) (-1)%Z = if memb v idx then (-1)%Z else Z.of_nat (rankf (fun u => memb u idx) v).
+Proof. intro Hv. rewrite new_index_eq. apply ni_closed. exact Hv. Qed.
+
+(* membership in edges_to_remove *)
+Lemma edges_to_remove_In_gen (rows : list (Z * Z)) : forall a e,
+  In e (flat_map (fun er : nat * (Z * Z) =>
+              let '(e0, (x, y)) := er in
+              (if Z.eqb x (-1) then [e0] else []) ++ (if Z.eqb y (-1) then [e0] else []))
+           (combine (seq a (length rows)) rows))
+  <-> a <= e < a + length rows /\
+      (fst (nth (e - a) rows (0%Z, 0%Z)) = (-1)%Z \/ snd (nth (e - a) rows (0%Z, 0%Z)) = (-1)%Z).
+Proof.
+  induction rows as [|[x y] rows IH]; intros a e.
+  - simpl. split; [intros [] | intros [H _]; lia].
+  - cbn [length seq combine flat_map]. rewrite in_app_iff, IH.
+    split.
+    + intros [H | (Hr & Hv)].
+      * assert (e = a /\ (x = (-1)%Z \/ y = (-1)%Z)) as [-> Hxy].
+        { apply in_app_or in H. destruct H as [H|H].
+          - destruct (Z.eqb_spec x (-1)); [|destruct H]. destruct H as [<-|[]]. auto.
+          - destruct (Z.eqb_spec y (-1)); [|destruct H]. destruct H as [<-|[]]. auto. }
+        split; [lia|]. rewrite Nat.sub_diag. exact Hxy.
+      * split; [lia|]. replace (e - a) with (S (e - S a)) by lia. exact Hv.
+    + intros (Hr & Hv).
+      destruct (Nat.eq_dec e a) as [->|Hne].
+      * left. rewrite Nat.sub_diag in Hv. cbn [nth fst snd] in Hv. apply in_or_app.
+        destruct Hv as [-> | ->]; [left | right]; simpl; auto.
+      * right. split; [lia|]. replace (e - a) with (S (e - S a)) in Hv by lia. exact Hv.
+Qed.
+
+Lemma edges_to_remove_In L idx e : wf_lattice L = true ->
+  In e (edges_to_remove L idx) <-> e < nE L /\ both_ends L (keepf idx) e = false.
+Proof.
+  intro Hwf. unfold edges_to_remove.
+  rewrite <- (new_adjacency_length L idx) at 1.
+  rewrite edges_to_remove_In_gen, new_adjacency_length, Nat.sub_0_r.
+  split.
+  - intros ((_ & He) & Hv). split; [lia|].
+    rewrite (nth_indep _ _ ((-1)%Z, (-1)%Z)) in Hv by (rewrite new_adjacency_length; lia).
+    rewrite new_adjacency_nth in Hv by lia. cbn [fst snd] in Hv.
+    destruct (wf_edge_at L e Hwf) as [Hj Hk]; [lia|].
+    rewrite !ni_value in Hv by assumption.
+    unfold both_ends, keepf.
+    destruct (memb (fst (edge_at L e)) idx); [reflexivity|].
+    destruct (memb (snd (edge_at L e)) idx); [reflexivity|].
+    destruct Hv as [Hv|Hv]; lia.
+  - intros (He & Hb). split; [lia|].
+    rewrite (nth_indep _ _ ((-1)%Z, (-1)%Z)) by (rewrite new_adjacency_length; lia).
+    rewrite new_adjacency_nth by lia. cbn [fst snd].
+    destruct (wf_edge_at L e Hwf He) as [Hj Hk].
+    rewrite !ni_value by assumption.
+    unfold both_ends, keepf in Hb.
+    destruct (memb (fst (edge_at L e)) idx); [left; reflexivity|].
+    destruct (memb (snd (edge_at L e)) idx); [right; reflexivity|].
+    discriminate Hb.
+Qed.
+
+Lemma kept_edges_filter L idx : wf_lattice L = true ->
+  filter (fun i => negb (memb i (edges_to_remove L idx))) (seq 0 (nE L)) = kept_edges L idx.
+Proof.
+  intro Hwf. rewrite kept_edges_eq. apply filter_ext_in. intros e He. apply in_seq in He.
+  destruct (both_ends L (keepf idx) e) eqn:Hb.
+  - apply negb_true_iff. destruct (memb e (edges_to_remove L idx)) eqn:Hm; [|reflexivity].
+    apply memb_In in Hm. apply (edges_to_remove_In L idx e Hwf) in Hm. destruct Hm as [_ Hm]. congruence.
+  - apply negb_false_iff. apply memb_In. apply (edges_to_remove_In L idx e Hwf). split; [lia | exact Hb].
+Qed.
+
+Lemma rank_kept_vertices L idx v : v < nV L -> keepf idx v = true ->
+  rank (kept_vertices L idx) v = rankf (fun u => memb u idx) v.
+Proof.
+  intros Hv Hk. rewrite kept_vertices_eq, rank_filter_seq by (try lia; exact Hk).
+  rewrite Nat.sub_0_r. reflexivity.
+Qed.
+
+(* remove_vertices_spec: the result is exactly the sub-lattice on the kept vertices (ascending) and the
+   edges with both ends kept (ascending), renumbered by rank, with positions and crossings carried over;
+   the reported edges are, as a set, exactly the other edges. *)
+Lemma remove_vertices_spec L idx : wf_lattice L = true -> Forall (fun i => i < nV L) idx ->
+  exists rep,
+    remove_vertices L idx = Some (sub_lattice L (kept_vertices L idx) (kept_edges L idx), rep) /\
+    (forall e, In e rep <-> e < nE L /\ both_ends L (keepf idx) e = false).
+Proof.
+  intros Hwf Hidx. exists (edges_to_remove L idx). split; [|intro e; apply edges_to_remove_In; exact Hwf].
+  unfold remove_vertices.
+  assert (Hall : forallb (fun i => i <? nV L) idx = true).
+  { apply forallb_forall. intros i Hi. rewrite Forall_forall in Hidx. apply Nat.ltb_lt. auto. }
+  rewrite Hall. f_equal. f_equal.
+  destruct (wf_parts L Hwf) as (_ & Hc & _).
+  unfold sub_lattice. f_equal.
+  - (* positions *)
+    unfold set_for_removal, nV. rewrite (mask_select_spec vzero). reflexivity.
+  - (* edges *)
+    rewrite (np_delete_spec ((-1)%Z, (-1)%Z)), new_adjacency_length, kept_edges_filter by exact Hwf.
+    rewrite map_map. apply map_ext_in. intros e He.
+    rewrite kept_edges_eq in He. apply filter_In in He. destruct He as [He Hb]. apply in_seq in He.
+    rewrite new_adjacency_nth by lia. cbn [fst snd].
+    destruct (wf_edge_at L e Hwf) as [Hj Hk]; [lia|].
+    unfold both_ends in Hb. apply andb_true_iff in Hb. destruct Hb as [Hbj Hbk].
+    rewrite !ni_value by assumption.
+    pose proof Hbj as Hbj'. pose proof Hbk as Hbk'. unfold keepf in Hbj', Hbk'.
+    apply negb_true_iff in Hbj'. apply negb_true_iff in Hbk'. rewrite Hbj', Hbk'.
+    rewrite !Nat2Z.id, !rank_kept_vertices by assumption. reflexivity.
+  - (* crossing *)
+    rewrite (np_delete_spec vzero), Hc, kept_edges_filter by exact Hwf. reflexivity.
+Qed.
